@@ -13,7 +13,8 @@ def run(tier):
     return [deductive.verify_function(K.REL, 'Factor.__sub__', K.SUB, hooks=K.CellHooks(), module_env=K.module_env()),
             deductive.verify_function(rel, q, c, hooks=N.BPHooks(), module_env={'Z_calibrated': N.E.Num(N.z3.Real('Z_calibrated'))}),
             deductive.verify_function(*GI.ITEM),
-            deductive.verify_function(BM.ITEM[0], BM.ITEM[1], BM.ITEM[2], hooks=BM.hooks(), prefix='%s::%s[message step]' % BM.ITEM[:2])] + _agg()
+            deductive.verify_function(BM.ITEM[0], BM.ITEM[1], BM.ITEM[2], hooks=BM.hooks(), prefix='%s::%s[message step]' % BM.ITEM[:2])] + _agg() + \
+        [deductive.lemma_report(('bp-edge-calibration',), title='calibration across a tree edge, as a lemma over the verified message-step equations')]
 
 
 def _agg():
